@@ -43,6 +43,11 @@ def main():
         finally:
             sh("git -C /repo checkout -- . && git -C /repo clean -fdq")
     json.dump(results, open(respath, "w"), indent=1)
+    # the runs above rewrote evidence/<id>.json from mutated trees: evidence must come from the unchanged tree
+    touched = sorted({p for mid in ids if mid in results for p in results[mid]})
+    for p in touched:
+        c = sh("cd %s && timeout 3000 python3 tools/check.py --property %s --tier quick" % (VERIF, p))
+        print("restored evidence", p, "exit", c.returncode)
 
 if __name__ == "__main__":
     main()
